@@ -49,7 +49,7 @@ proof fn lemma_counted_in_table(mb: Metablock, m: Map<KeyId, PublicKey>, ks: Seq
 //@include contracts/keyid_stub.rs
 
 //@include contracts/match_signatures_spec.rs
-//@extract src/verifylib.rs fn:match_signatures props=C02,C14
+//@extract src/verifylib.rs fn:match_signatures props=C02,C07,C14
 //@subst D13 /sig\.key_id\(\)\.prefix\(\) == signer_short_key_id/ => sig.key_id().prefix().as_str() == signer_short_key_id
 //@contract
 //@include contracts/match_signatures.rs
